@@ -4,8 +4,9 @@
 (* construction and are checked as invariants).                                *)
 EXTENDS Naturals, Sequences, FiniteSets, TLC, Json
 
-Pkt == [link : {1, 2}, size : {64, 80}]
-CONSTANT MaxLen
+CONSTANTS MaxLen,
+          Sizes          \* packet sizes (offset to next = memory size): 64 = no payload; any multiple of 16 up to 10064 otherwise
+Pkt == [link : {1, 2}, size : Sizes]
 VARIABLES stream, filter, skip, src, cut,        \* the case (chosen in Init)
           i, out, seen, filt, pay, errs, done     \* the run
 vars == << stream, filter, skip, src, cut, i, out, seen, filt, pay, errs, done >>
